@@ -505,11 +505,17 @@ func c07Judge(o *tObs) *viol {
 		return violf("harness", "%v", o.Err)
 	}
 	p := o.Plan
+	need := p.T
+	if o.HiccupAtThreshold {
+		// one node lost the contribution whose handling met the board fault (the poller does not come back to a message):
+		// it needs one more correct answer than the others, and a batch is owed everywhere only with t+1 of them
+		need = p.T + 1
+	}
 	for b := range p.Batches {
 		if !o.Accepted[b] {
 			continue
 		}
-		if len(o.Correct[b]) < p.T {
+		if len(o.Correct[b]) < need {
 			continue
 		}
 		// more than n-t failure reports may have cancelled the batch before t answers arrived; then it is not owed
@@ -540,7 +546,7 @@ func c07Judge(o *tObs) *viol {
 			// a batch that never got t answers legitimately stays open
 			open := false
 			for b := range p.Batches {
-				if o.Accepted[b] && len(o.Correct[b]) < p.T {
+				if o.Accepted[b] && len(o.Correct[b]) < need {
 					open = true
 				}
 			}
